@@ -14,6 +14,15 @@ from ir import *
 
 class Unsupported(Exception): pass
 CALL_REAL = object()
+import threading
+def zcheck(solver, ms=None):
+    """solver.check() with a hard wall-clock guard: z3's own timeout is not honoured inside some preprocessing steps
+    (bit-blasting of wide dividers, int<->bv conversions), so a watchdog interrupts the context"""
+    ms = ms or getattr(solver, '_hard_ms', 60000)
+    t = threading.Timer(ms / 1000.0 * 1.3 + 2.0, solver.ctx.interrupt); t.daemon = True; t.start()
+    try: return solver.check()
+    except z3.Z3Exception: return z3.unknown
+    finally: t.cancel()
 class Abort(Exception): pass          # path ended in unreachable / assume(false)
 class PathEnd(Exception): pass
 class LoopBound(Exception): pass
@@ -329,7 +338,7 @@ class Exec:
         s.naxioms = 0; s.obligations = []; s.errors = 0; s.steps = 0; s.maxsteps = maxsteps
         s.indirect = indirect or {}; s.stubs = stubs or {}
         s.nondet = []; s.nondet_values = nondet_values; s.nnd = 0
-        s.assumed = []; s.calls = []; s.store_log = None
+        s.assumed = []; s.calls = []; s.store_log = None; s.solver_timeout_ms = 30000; s.deadline = None
     def func(s, name):
         if name not in s.fcache: s.fcache[name] = Func(s.m, name)
         return s.fcache[name]
@@ -506,7 +515,7 @@ class Exec:
             s.solver.add(ax[s.naxioms]); s.naxioms += 1
     def feasible(s, c):
         s.flush_axioms()
-        s.solver.push(); s.solver.add(c); r = s.solver.check(); s.solver.pop()
+        s.solver.push(); s.solver.add(c); r = zcheck(s.solver, s.solver_timeout_ms); s.solver.pop()
         s.nqueries = getattr(s, 'nqueries', 0) + 1
         return r != z3.unsat
     def branch(s, c):
@@ -604,6 +613,7 @@ def run_function(E, fname, args, depth=0):
             if op == 'phi': continue
             E.steps += 1
             if E.steps > E.maxsteps: raise LoopBound('step budget %d exceeded in %s' % (E.maxsteps, fname))
+            if E.deadline is not None and (E.steps & 255) == 0 and time.time() > E.deadline: raise Unsupported('harness time budget exceeded during symbolic execution')
             if op == 'alloca': regs[i.dest] = E.alloc(m.size(i.ty))
             elif op == 'load':
                 p = val(i.a)
@@ -732,7 +742,10 @@ def run_function(E, fname, args, depth=0):
                     A = E.bv(a, bits); B = E.bv(b, bits)
                     if op in ('sdiv', 'srem') and isint(b) and 0 < E.sgn(b, bits) and (b & (b - 1)) == 0 and E.solver is not None:
                         # signed division by a positive power of two of a provably non-negative value == unsigned (solver-checked, then z3 folds it to extract/shift)
-                        if not E.feasible(A < 0): op = 'udiv' if op == 'sdiv' else 'urem'
+                        if getattr(E, 'nn_fail', 0) < 4:
+                            E.solver.push(); E.solver.set('timeout', 150); E.solver.add(A < 0); r_ = zcheck(E.solver, 300); E.solver.pop(); E.solver.set('timeout', E.solver_timeout_ms)
+                            if r_ == z3.unsat: op = 'udiv' if op == 'sdiv' else 'urem'
+                            elif r_ != z3.sat: E.nn_fail = getattr(E, 'nn_fail', 0) + 1     # helper query undecided: keep the signed operation
                     if op in ('udiv', 'urem', 'sdiv', 'srem') and not isint(b): E.obligations.append(('division by zero', B != 0))
                     r = {'add': lambda: A + B, 'sub': lambda: A - B, 'mul': lambda: A * B, 'and': lambda: A & B, 'or': lambda: A | B, 'xor': lambda: A ^ B,
                          'shl': lambda: A << B, 'lshr': lambda: z3.LShR(A, B), 'ashr': lambda: A >> B, 'sdiv': lambda: A / B, 'udiv': lambda: z3.UDiv(A, B),
@@ -932,6 +945,7 @@ def explore(m, fname, fp_factory, setup=None, on_path=None, tie_free=False, indi
         solver = z3.Solver(); solver.set('timeout', solver_timeout_ms)
         fp = fp_factory()
         E = Exec(m, fp, solver, tie_free=tie_free, indirect=indirect, stubs=stubs, maxsteps=maxsteps); E.decisions = list(dec)
+        E.solver_timeout_ms = solver_timeout_ms; E.deadline = (t0 + timeout) if timeout else None
         if log_stores: E.store_log = []
         a = setup(E) if setup else (args or [])
         try:
@@ -953,22 +967,86 @@ def explore(m, fname, fp_factory, setup=None, on_path=None, tie_free=False, indi
         if timeout and time.time() - t0 > timeout: raise Unsupported('exploration timeout %ds after %d paths' % (timeout, n))
     return stats
 
+def cutpoints(a, b, limit=64):
+    """structural diff of two terms: descend through the common skeleton (same function symbol, same arity) and return the
+    pairs of sub-terms where they first differ (cut points, as in combinational equivalence checking)"""
+    out = []; seen = set(); stack = [(a, b)]
+    while stack and len(out) < limit:
+        x, y = stack.pop()
+        if x.get_id() == y.get_id(): continue
+        k = (x.get_id(), y.get_id())
+        if k in seen: continue
+        seen.add(k)
+        if z3.is_app(x) and z3.is_app(y) and x.num_args() > 0 and x.num_args() == y.num_args() and x.decl().eq(y.decl()) and x.sort().eq(y.sort()):
+            for cx, cy in zip(x.children(), y.children()): stack.append((cx, cy))
+        elif x.sort().eq(y.sort()): out.append((x, y))
+    return out
+
+def dag_size(t, cap):
+    seen = set(); stack = [t]
+    while stack and len(seen) < cap:
+        x = stack.pop()
+        if x.get_id() in seen: continue
+        seen.add(x.get_id())
+        if z3.is_app(x): stack.extend(x.children())
+    return len(seen)
+
+def eq_atoms(c, limit=200):
+    out = []; seen = set(); stack = [c]
+    while stack and len(out) < limit:
+        t = stack.pop()
+        if t.get_id() in seen: continue
+        seen.add(t.get_id())
+        if z3.is_app(t):
+            if t.decl().kind() in (z3.Z3_OP_EQ, z3.Z3_OP_DISTINCT) and t.num_args() == 2 and not z3.is_bool(t.arg(0)): out.append((t.arg(0), t.arg(1)))
+            else: stack.extend(t.children())
+    return out
+
+def cutpoint_candidate(E, c, timeout_ms=15000):
+    """the main query did not finish: look for an input on which a cut point of the compared terms differs (cheap query);
+    the result is only a CANDIDATE - the native replay decides whether the real outputs differ"""
+    for (a, b) in eq_atoms(c):
+        for (x, y) in cutpoints(a, b):
+            if x.get_id() == a.get_id() and y.get_id() == b.get_id(): continue     # no common skeleton: nothing gained
+            E.solver.push(); E.solver.set('timeout', timeout_ms); E.solver.add(x != y)
+            r = zcheck(E.solver, timeout_ms); mdl = E.solver.model() if r == z3.sat else None
+            E.solver.pop()
+            if mdl is not None: return mdl
+    return None
+
 def check_obligations(E, extra_assume=None):
     """decide every obligation recorded on this path: returns list of (name, verdict, model_or_None)"""
-    out = []
+    out = []; n_unknown = 0
     E.flush_axioms()
     for name, c in E.obligations:
+        if n_unknown >= 3:
+            # the solver is not getting anywhere on this path: do not burn the full timeout on every remaining obligation
+            if not (isinstance(c, bool) or (isinstance(c, int) and not z3.is_expr(c))):
+                cc = z3.simplify(E.tobool(c))
+                if z3.is_true(cc): out.append((name, 'discharged', None, 0.0)); continue
+                mdl = cutpoint_candidate(E, cc, 3000) if name.startswith('verif_check') else None
+                out.append((name, 'candidate' if mdl is not None else 'unknown', mdl, 0.0)); continue
         if isinstance(c, bool) or (isinstance(c, int) and not z3.is_expr(c)):
             out.append((name, 'discharged' if c else 'candidate', None, 0.0)); continue
         c = E.tobool(c)
         t0 = time.time()
+        c = z3.simplify(c)
+        if z3.is_true(c): out.append((name, 'discharged', None, 0.0)); continue
+        if dag_size(c, 4000) >= 4000:
+            # very large compared terms: look for an input at a cut point first (cheap); the expensive monolithic query only runs if none exists
+            mdl = cutpoint_candidate(E, c)
+            if mdl is not None: out.append((name, 'candidate', mdl, time.time() - t0)); continue
         E.solver.push(); E.solver.add(z3.Not(c))
         if extra_assume is not None: E.solver.add(extra_assume)
         E.flush_axioms()
-        r = E.solver.check(); E.nqueries = getattr(E, 'nqueries', 0) + 1
+        r = zcheck(E.solver, E.solver_timeout_ms); E.nqueries = getattr(E, 'nqueries', 0) + 1
         if r == z3.unsat: out.append((name, 'discharged', None, time.time() - t0))
         elif r == z3.sat: out.append((name, 'candidate', E.solver.model(), time.time() - t0))
-        else: out.append((name, 'unknown', None, time.time() - t0))
+        else:
+            E.solver.pop()
+            mdl = cutpoint_candidate(E, c) if getattr(E, 'use_cutpoints', True) else None
+            if mdl is None: n_unknown += 1
+            out.append((name, 'candidate' if mdl is not None else 'unknown', mdl, time.time() - t0)); continue
         E.solver.pop()
     return out
 
